@@ -141,6 +141,10 @@ add("common.rs", "raw_instant_layout_matches_std", {"C05", "C06"}, "quick", 2, "
 for _n, _t in ((1, "quick"), (2, "quick"), (3, "quick")):
     add("unsync_cache.rs", f"evict_lru_lemma_n{_n}", {"C12", "C04", "C10", "C08", "C11"}, _t, 20, "evict_lru_entries for ALL weights and capacities: exactly the shortest LRU prefix covering the excess",
         f"n={_n} residents, weights (u32) and capacity (u64) symbolic", quick={"C12", "C04"})
+for _n in (1, 2):
+    add("unsync_cache.rs", f"handle_insert_lemma_n{_n}", {"C13", "C12", "C03", "C04", "C10", "C08", "C11"}, "quick", 25, "handle_insert for ALL weights / candidate weights / capacities / sketch contents",
+        f"n={_n} residents; u32 weights, u64 capacity, sketch symbolic", quick={"C13", "C03", "C04", "C10"},
+        required=("fits", "heavier than the capacity", "admitted over all residents", "rejected by admission"))
 add("unsync_cache.rs", "handle_update_lemma_n2", {"C10", "C04", "C12", "C01", "C08"}, "quick", 20, "handle_update for ALL old/new weights", "n=2, u32 weights symbolic", quick={"C10", "C04"})
 for _n, _t in ((1, "quick"), (2, "quick"), (3, "quick")):
     add("unsync_cache.rs", f"admit_lemma_n{_n}", {"C13", "C12", "C10", "C08"}, _t, 20, "Cache::admit for ALL weights, candidate weights and sketch contents: Admitted <=> shortest covering LRU prefix exists and is strictly less popular; victims = that prefix",
